@@ -22,6 +22,16 @@ theorem determine_ok {ss : List Stmt} {i : Nat} {s s' : Stmt} (h : determine ss 
   unfold determine at h
   split at h
   · rename_i c0 c1 hch
+    -- fix 8dc2b21/316e504: `label * k` / `label / k` is settled on the 16-bit form at once
+    by_cases hfo : exprForces s.pkg.additional = true
+    · rw [if_pos hfo] at h
+      cases hs : settle s 2 4 c1 with
+      | none => rw [hs] at h; cases h
+      | some x =>
+        rw [hs] at h; cases h
+        obtain ⟨h1, h2, h3, _⟩ := settle_fixed hs
+        exact ⟨.inl h1, h2, h3⟩
+    rw [if_neg hfo] at h
     cases hr : relIndex s.pkg.additional with
     | none => rw [hr] at h; cases h
     | some rel =>
@@ -64,6 +74,10 @@ theorem determine_append {a b : List Stmt} {i : Nat} {s s' : Stmt} (hi : i < a.l
   · rename_i c0 c1 hch
     rw [hch] at h
     dsimp only at h ⊢
+    -- fix 8dc2b21/316e504: the early 16-bit branch does not look at the statement list
+    by_cases hfo : exprForces s.pkg.additional = true
+    · rw [if_pos hfo] at h ⊢; exact h
+    rw [if_neg hfo] at h ⊢
     cases hr : relIndex s.pkg.additional with
     | none => rw [hr] at h; cases h
     | some rel =>
